@@ -4,6 +4,7 @@ pub mod c01;
 pub mod c02;
 pub mod c03;
 pub mod c04;
+pub mod c05;
 pub mod c06;
 pub mod c07;
 pub mod c08;
@@ -27,6 +28,8 @@ pub fn dispatch(engine: &str, cfg: &Cfg) -> i32 {
         "c02" => c02::run(cfg),
         "c03" => c03::run(cfg),
         "c04" => c04::run(cfg),
+        "c05" => c05::run(cfg),
+        "c05-child" => c05::child_main(cfg),
         "c06" => c06::run(cfg),
         "c07" => c07::run(cfg),
         "c08" => c08::run(cfg),
